@@ -49,11 +49,15 @@ from srcfuns import Unsupported, dec_pair  # noqa: E402
 PROP = "C04"
 SRC = "src/transform/estimation/FindRigidTransformationBySVD.cpp"
 PTYPES = OrderedDict([
-    ("v2", ("Eigen::Vector2d", "Eigen::Matrix<double, 2, 1, 0>")),
-    ("v3", ("Eigen::Vector3d", "Eigen::Matrix<double, 3, 1, 0>")),
-    ("h2", ("romea::core::HomogeneousCoordinates2d", "romea::core::HomogeneousCoordinates2<double>")),
-    ("h3", ("romea::core::HomogeneousCoordinates3d", "romea::core::HomogeneousCoordinates3<double>")),
+    ("v2", {"double": ("Eigen::Vector2d", "Eigen::Matrix<double, 2, 1, 0>"), "float": ("Eigen::Vector2f", "Eigen::Matrix<float, 2, 1, 0>")}),
+    ("v3", {"double": ("Eigen::Vector3d", "Eigen::Matrix<double, 3, 1, 0>"), "float": ("Eigen::Vector3f", "Eigen::Matrix<float, 3, 1, 0>")}),
+    ("h2", {"double": ("romea::core::HomogeneousCoordinates2d", "romea::core::HomogeneousCoordinates2<double>"),
+            "float": ("romea::core::HomogeneousCoordinates2f", "romea::core::HomogeneousCoordinates2<float>")}),
+    ("h3", {"double": ("romea::core::HomogeneousCoordinates3d", "romea::core::HomogeneousCoordinates3<double>"),
+            "float": ("romea::core::HomogeneousCoordinates3f", "romea::core::HomogeneousCoordinates3<float>")}),
 ])
+SCALARS = ("double", "float")
+SC = ["double"]          # the Scalar of the instantiation being translated (set by generate)
 CLASSES = ("FindRigidTransformationBySVD", "PreconditionedPointSet")
 CONSTS = ("CARTESIAN_DIM", "POINT_SIZE")
 
@@ -61,10 +65,11 @@ CONSTS = ("CARTESIAN_DIM", "POINT_SIZE")
 def tu_text():
     t = '#include "%s"\n#include "src/pointset/algorithms/PreconditionedPointSet.cpp"\n' % SRC
     t += "namespace romea { namespace core { namespace s04tie {\ntemplate<unsigned long K> struct Val {};\n"
-    for tag, (cxx, _) in PTYPES.items():
-        for cls in CLASSES:
-            for c in CONSTS:
-                t += "Val<romea::core::%s<%s>::%s> k_%s_%s_%s;\n" % (cls, cxx, c, cls, tag, c)
+    for tag, both in PTYPES.items():
+        for sc in SCALARS:
+            for cls in CLASSES:
+                for c in CONSTS:
+                    t += "Val<romea::core::%s<%s>::%s> k_%s_%s_%s_%s;\n" % (cls, both[sc][0], c, cls, tag, sc, c)
     return t + "}}}\n"
 
 
@@ -78,8 +83,7 @@ CAST_KINDS = ("ImplicitCastExpr", "CXXStaticCastExpr", "CXXFunctionalCastExpr", 
 PASS_CASTS = ("LValueToRValue", "NoOp", "DerivedToBase", "UncheckedDerivedToBase", "ConstructorConversion", "FunctionToPointerDecay",
               "IntegralCast")
 SKIP = ("ParenExpr", "MaterializeTemporaryExpr", "ExprWithCleanups", "CXXBindTemporaryExpr", "ConstantExpr", "SubstNonTypeTemplateParmExpr")
-RE_MAT = re.compile(r"Eigen::Matrix<double, (-?\d+)(?:UL)?, (-?\d+)(?:UL)?")
-RE_HOM = re.compile(r"(?:romea::core::)?HomogeneousCoordinates(\d)<double>")
+RE_MAT = re.compile(r"Eigen::Matrix<(double|float), (-?\d+)(?:UL)?, (-?\d+)(?:UL)?")
 RESERVED = {"N", "T", "L", "O", "S", "fst", "snd", "nth", "seq", "length", "fold_left", "st", "jacobi_svd", "in", "let", "fun", "if",
             "then", "else", "match", "with", "end", "forall", "exists", "fix", "as", "return", "at", "using", "where", "Type", "Prop", "Set"}
 
@@ -103,16 +107,18 @@ def run_clang(repo):
 
 
 SUGAR = {"Eigen::Vector2d": "Eigen::Matrix<double, 2, 1, 0>", "Eigen::Vector3d": "Eigen::Matrix<double, 3, 1, 0>",
-         "HomogeneousCoordinates2d": "HomogeneousCoordinates2<double>", "HomogeneousCoordinates3d": "HomogeneousCoordinates3<double>"}
+         "HomogeneousCoordinates2d": "HomogeneousCoordinates2<double>", "HomogeneousCoordinates3d": "HomogeneousCoordinates3<double>",
+         "Eigen::Vector2f": "Eigen::Matrix<float, 2, 1, 0>", "Eigen::Vector3f": "Eigen::Matrix<float, 3, 1, 0>",
+         "HomogeneousCoordinates2f": "HomogeneousCoordinates2<float>", "HomogeneousCoordinates3f": "HomogeneousCoordinates3<float>"}
 
 
 def canon(a):
     """canonical spelling of a point type used as a template argument"""
     a = re.sub(r"\s+", " ", a.replace("romea::core::", "")).strip()
     a = SUGAR.get(a, a)
-    m = re.match(r"^Eigen::Matrix<double, (\d+), 1(?:, 0(?:, \1, 1)?)?>$", a)
+    m = re.match(r"^Eigen::Matrix<(double|float), (\d+), 1(?:, 0(?:, \2, 1)?)?>$", a)
     if m:
-        return "Eigen::Matrix<double, %s, 1, 0>" % m.group(1)
+        return "Eigen::Matrix<%s, %s, 1, 0>" % (m.group(1), m.group(2))
     return a
 
 
@@ -158,10 +164,10 @@ class Registry:
             if old is None or nb > sum(1 for m in old.get("inner", []) if has_body(m)):
                 self.specs[key] = n
             m = re.match(r"HomogeneousCoordinates(\d)$", n.get("name") or "")
-            if m and targs(n) == ["double"] and n.get("bases"):
+            if m and targs(n) in (["double"], ["float"]) and n.get("bases"):
                 b = RE_MAT.search(n["bases"][0].get("type", {}).get("desugaredQualType", "") + " " + n["bases"][0].get("type", {}).get("qualType", ""))
-                if b and b.group(2) == "1":
-                    self.hom[m.group(1)] = int(b.group(1))
+                if b and b.group(3) == "1" and b.group(1) == targs(n)[0]:
+                    self.hom[(m.group(1), targs(n)[0])] = int(b.group(2))
             return
         if k == "FunctionDecl" and has_body(n) and "id" in n:
             self.functions[n["id"]] = n
@@ -282,23 +288,27 @@ class Frame:
     def tshape(self, t, what=""):
         t = re.sub(r"\bconst\b", "", t).replace("&", "").strip()
         t = re.sub(r"\s+", " ", t)
-        if t == "double":
+        if t == SC[0]:
             return ("s",)
-        if t == "float":
-            raise Unsupported("float in a double instantiation (mixed precision)")
+        if t in SCALARS:
+            raise Unsupported("%s in a %s instantiation (mixed precision)" % (t, SC[0]))
         if t == "bool":
             return ("b",)
         if t in ("int", "unsigned long", "long", "unsigned int", "size_t", "std::size_t", "Eigen::Index", "long long", "unsigned long long"):
             return ("z",)
-        m = re.match(r"^Eigen::Matrix<double, (-?\d+)(?:UL)?, (-?\d+)(?:UL)?(?:, [\w, -]+)?>$", t)
+        m = re.match(r"^Eigen::Matrix<(double|float), (-?\d+)(?:UL)?, (-?\d+)(?:UL)?(?:, [\w, -]+)?>$", t)
         if m:
-            r, c = int(m.group(1)), int(m.group(2))
+            if m.group(1) != SC[0]:
+                raise Unsupported("%s matrix in a %s instantiation (mixed precision)" % (m.group(1), SC[0]))
+            r, c = int(m.group(2)), int(m.group(3))
             return ("dyn",) if r < 0 or c < 0 else ("m", r, c)
-        m = re.match(r"^(?:romea::core::)?HomogeneousCoordinates(\d)<double>$", t)
+        m = re.match(r"^(?:romea::core::)?HomogeneousCoordinates(\d)<(double|float)>$", t)
         if m:
-            if m.group(1) not in self.g.reg.hom:
-                raise Unsupported("base class of HomogeneousCoordinates%s<double>" % m.group(1))
-            return ("m", self.g.reg.hom[m.group(1)], 1)
+            if m.group(2) != SC[0]:
+                raise Unsupported("%s point in a %s instantiation (mixed precision)" % (m.group(2), SC[0]))
+            if (m.group(1), SC[0]) not in self.g.reg.hom:
+                raise Unsupported("base class of HomogeneousCoordinates%s<%s>" % (m.group(1), SC[0]))
+            return ("m", self.g.reg.hom[(m.group(1), SC[0])], 1)
         m = re.match(r"^std::vector<(.*)>$", t)
         if m:
             a = split_args(m.group(1))
@@ -489,7 +499,7 @@ class Frame:
             if rd.get("kind") == "EnumConstantDecl":
                 return V("enum", names=frozenset([rd.get("name")]))
             if rd.get("kind") == "VarDecl" and rd.get("name") in CONSTS and self.cls is not None:
-                key = "k_%s_%s_%s" % (self.cls[0], self.g.tag, rd["name"])
+                key = "k_%s_%s_%s_%s" % (self.cls[0], self.g.tag, SC[0], rd["name"])
                 if key in self.g.reg.consts:
                     return Zc(self.g.reg.consts[key])
             raise Unsupported("reference to %s" % rd.get("name"))
@@ -648,7 +658,9 @@ class Frame:
             want = {"Zero": "scalar_constant_op", "Ones": "scalar_constant_op", "Identity": "scalar_identity_op"}[nm]
             if not m or want not in qt(n) + n.get("type", {}).get("qualType", ""):
                 raise Unsupported("shape of %s()" % nm)
-            r, cc = int(m.group(1)), int(m.group(2))
+            r, cc = int(m.group(2)), int(m.group(3))
+            if m.group(1) != SC[0]:
+                raise Unsupported("%s() of another scalar type" % nm)
             if r < 1 or cc < 1:
                 raise Unsupported("%s() of a dynamic matrix" % nm)
             one, zero = "(n_one N)", "(nzero N)"
@@ -1084,7 +1096,8 @@ def clean(s):
 
 HEAD = """(* GENERATED by translate/tr_C04_kabsch.py from the clang AST of the current sources (instantiated members of
    FindRigidTransformationBySVD<P>, the getters of PreconditionedPointSet<P> and romea::core::mean, for
-   P = Vector2d (v2), Vector3d (v3), HomogeneousCoordinates2d (h2), HomogeneousCoordinates3d (h3)). Do not edit. *)
+   P = Vector2d (v2), Vector3d (v3), HomogeneousCoordinates2d (h2), HomogeneousCoordinates3d (h3); every function is also
+   translated from the <float> instantiation (Vector2f, ...) and emitted only if that gives the same term). Do not edit. *)
 From Coq Require Import ZArith List.
 From Romea Require Import Num SrcMat.
 Import ListNotations.
@@ -1107,21 +1120,19 @@ def generate(repo):
         lines.append("(* NOTHING TRANSLATED: struct Correspondence *)")
         return "\n".join(lines + ["End SrcKabsch."]) + "\n", errors
 
-    def attempt(name, what, fn):
-        try:
-            text = fn()
-            lines.append("(* %s *)\n%s" % (what, text))
-            return True
-        except Unsupported as e:
-            errors.append((PROP, "%s (%s): %s" % (name, what, e)))
-            lines.append("(* %s: NOT TRANSLATED — %s *)\n" % (name, clean(str(e))))
-        except Exception as e:  # noqa  (an AST shape the executor did not expect: fail closed for this definition)
-            errors.append((PROP, "%s (%s): internal error %r" % (name, what, e)))
-            lines.append("(* %s: NOT TRANSLATED — internal error *)\n" % name)
-        return False
+    def one_scalar(tag, sc):
+        """-> [(coq name, description, text | None, error | None)] for the instantiation at Scalar = sc"""
+        SC[0] = sc
+        cxx, arg = PTYPES[tag][sc]
+        out, defs = [], {}
 
-    for tag, (cxx, arg) in PTYPES.items():
-        defs = {}
+        def attempt(name, what, fn):
+            try:
+                out.append((name, what, fn(), None))
+            except Unsupported as e:
+                out.append((name, what, None, str(e)))
+            except Exception as e:  # noqa  (an AST shape the executor did not expect: fail closed for this definition)
+                out.append((name, what, None, "internal error %r" % (e,)))
         # romea::core::mean<PointSet<P>>
         want = None
         for fid, fd in reg.functions.items():
@@ -1137,34 +1148,46 @@ def generate(repo):
                     want = fd
         nm = "src_mean_%s" % tag
         if want is None:
-            errors.append((PROP, "%s: romea::core::mean is not instantiated for %s" % (nm, cxx)))
-            lines.append("(* %s: NOT TRANSLATED — not instantiated *)\n" % nm)
+            out.append((nm, "romea::core::mean", None, "romea::core::mean is not instantiated for %s" % cxx))
         else:
             attempt(nm, "romea::core::mean<PointSet<%s>>" % cxx, lambda: translate_decl(reg, tag, {}, want, None, nm)[0])
         try:
             sp = reg.spec("FindRigidTransformationBySVD", arg)
+            if any(c.get("kind") == "FieldDecl" for c in sp.get("inner", [])):
+                raise Unsupported("FindRigidTransformationBySVD has data members (calls between members are translated as pure function calls)")
         except Unsupported as e:
-            errors.append((PROP, "%s: %s" % (tag, e)))
-            lines.append("(* %s: NOT TRANSLATED — %s *)\n" % (tag, clean(str(e))))
-            continue
-        if any(c.get("kind") == "FieldDecl" for c in sp.get("inner", [])):
-            errors.append((PROP, "%s: FindRigidTransformationBySVD has data members (calls between members are translated as pure function calls)" % tag))
-            lines.append("(* %s: NOT TRANSLATED — the class has data members *)\n" % tag)
-            continue
+            for stem, meth, npar, pre in TARGETS:
+                out.append(("src_%s_%s" % (stem, tag), "FindRigidTransformationBySVD<%s>" % cxx, None, str(e)))
+            return out
         for stem, meth, npar, pre in TARGETS:
             nm = "src_%s_%s" % (stem, tag)
+            what = "FindRigidTransformationBySVD<%s>::%s/%d%s" % (cxx, meth, npar, " (PreconditionedPointSet)" if pre else "")
             ms = [m for m in sp.get("inner", []) if m.get("kind") == "CXXMethodDecl" and m.get("name") == meth and has_body(m)
                   and len(params_of(m)) == npar and ("PreconditionedPointSet" in qt(params_of(m)[0])) == pre]
             if len(ms) != 1:
-                errors.append((PROP, "%s: %d definitions of %s/%d" % (nm, len(ms), meth, npar)))
-                lines.append("(* %s: NOT TRANSLATED — %d definitions *)\n" % (nm, len(ms)))
+                out.append((nm, what, None, "%d definitions of %s/%d" % (len(ms), meth, npar)))
                 continue
 
             def one(m=ms[0], nm=nm):
                 text, orc, rshape = translate_decl(reg, tag, defs, m, ("FindRigidTransformationBySVD", canon(arg)), nm)
                 defs[m["id"]] = (nm, orc, rshape)
                 return text
-            attempt(nm, "FindRigidTransformationBySVD<%s>::%s/%d%s" % (cxx, meth, npar, " (PreconditionedPointSet)" if pre else ""), one)
+            attempt(nm, what, one)
+        return out
+
+    # every function is translated from the <double> AND from the <float> instantiation of the same template; the two terms
+    # must be the same (the dictionary N stands for the Scalar) and are emitted once
+    for tag in PTYPES:
+        rd, rf = one_scalar(tag, "double"), one_scalar(tag, "float")
+        SC[0] = "double"
+        for (nm, what, td, ed), (_, whatf, tf, ef) in zip(rd, rf):
+            err = ed if td is None else ("<float> instantiation: %s" % ef if tf is None else
+                                         "the <double> and <float> instantiations give different terms" if td != tf else None)
+            if err is None:
+                lines.append("(* %s  (the <float> instantiation gives the same term) *)\n%s" % (what, td))
+            else:
+                errors.append((PROP, "%s (%s): %s" % (nm, what, err)))
+                lines.append("(* %s: NOT TRANSLATED — %s *)\n" % (nm, clean(err)))
     return "\n".join(lines + ["End SrcKabsch."]) + "\n", errors
 
 
